@@ -91,8 +91,12 @@ DispersalKernel<Generator> create_dynamic_kernel(
     return DispersalKernel<Generator>(
         create_natural_kernel<Generator, IntegerRaster, RasterIndex>(
             config, dispersers),
-        create_anthro_kernel<Generator, IntegerRaster, RasterIndex>(
-            config, dispersers, network),
+        // Created only when used: its parameters are inputs of a feature which may
+        // be disabled (and the default anthropogenic scale is not a valid scale).
+        config.use_anthropogenic_kernel
+            ? create_anthro_kernel<Generator, IntegerRaster, RasterIndex>(
+                config, dispersers, network)
+            : std::unique_ptr<KernelInterface<Generator>>(nullptr),
         config.use_anthropogenic_kernel,
         config.percent_natural_dispersal);
 }
